@@ -2,10 +2,11 @@
    One operation per input line, one canonical result line per operation. -/
 import Libvna.Model.Scalar
 import Libvna.Gen.Conv2Table
+import Libvna.Driver.VDataDrv
 open Libvna
 
 structure DState where
-  dummy : Nat := 0
+  vd : Libvna.Drv.VSlots := List.replicate 8 none
 
 def joinHex (xs : List CF) : String := " ".intercalate (xs.map cfToHex)
 
@@ -26,11 +27,15 @@ def stepConv (args : List String) : String :=
 def step (st : DState) (line : String) : DState × String :=
   match line.trimAscii.toString.splitOn " " with
   | "conv" :: rest => (st, stepConv rest)
+  | "vd" :: rest => let (v, o) := Libvna.Drv.stepVd st.vd rest; ({ st with vd := v }, o)
   | _ => (st, "bad-op")
 
 partial def loop (h : IO.FS.Stream) (out : IO.FS.Stream) (st : DState) : IO Unit := do
   let line ← h.getLine
   if line.isEmpty then return ()
+  if line.startsWith "#" then
+    loop h out st
+  else
   let (st', o) := step st line
   out.putStrLn o
   loop h out st'
